@@ -1193,11 +1193,12 @@ func (s *State) evalStringInfixExpression(operator token.Type, left, right objec
 		rightVal := right.(object.String).Value
 		return object.String{Value: leftVal + rightVal}
 	case operator == token.ASTERISK && rightIsInt:
-		n := len(leftVal) * int(rightVal)
 		if rightVal < 0 {
 			return s.Errorf("right operand of * on strings must be a positive integer, got %d", rightVal)
 		}
-		object.MustBeOk(n / object.ObjectSize)
+		if object.RepeatLen(len(leftVal), rightVal, true) == 0 {
+			return object.String{Value: ""}
+		}
 		return object.String{Value: strings.Repeat(leftVal, int(rightVal))}
 	default:
 		return s.Errorf("unknown operator: %s %s %s",
@@ -1217,7 +1218,11 @@ func (s *State) evalArrayInfixExpression(operator token.Type, left, right object
 		if rightVal < 0 {
 			return s.NewError("right operand of * on arrays must be a positive integer")
 		}
-		result := object.MakeObjectSlice(len(leftVal) * int(rightVal))
+		n := object.RepeatLen(len(leftVal), rightVal, false)
+		if n == 0 {
+			return object.NewArray(nil)
+		}
+		result := make([]object.Object, 0, n)
 		for range rightVal {
 			result = append(result, leftVal...)
 		}
